@@ -121,3 +121,32 @@ Definition fixed_policy (ops : list op) : Prop :=
 (* Path.Compare ignores OnlyToCustomer and HiddenReason: paths up to those two *)
 Definition pkey (q : path) : path := set_hid (set_otc q 0) 0.
 Definition ekey (e : pfx * path) : pfx * path := (fst e, pkey (snd e)).
+
+(* ---- C06: where a path held by a client may come from *)
+(* (p, qn): some announcement for p in the history was eligible when it was received, and qn is what
+   the session stores for it *)
+Definition eligible_src (a : sattrs) (ops : list op) (p : pfx) (qn : path) : Prop :=
+  exists pre q post, ops = pre ++ Announce p q :: post /\
+    ineligible a (s_las (spec_run a pre)) (s_lcs (spec_run a pre)) q = false /\
+    qn = normalize a q.
+(* the policies that were in force at some time *)
+Definition policy_of (pol : policy) (ops : list op) (c : policy) : Prop := c = pol \/ In (ReplaceChain c) ops.
+(* q' at prefix p is the image, under one of those policies, of an eligible announcement for p *)
+Definition justified (a : sattrs) (pol : policy) (ops : list op) (p : pfx) (q' : path) : Prop :=
+  exists qn c, eligible_src a ops p qn /\ policy_of pol ops c /\ c p qn = Some q'.
+(* the path a call hands to a client *)
+Definition delivered (e : event) : option (N * pfx * path) :=
+  match e with
+  | EvAdd c p q | EvDump c p q => Some (c, p, q)
+  | EvReplace c p _ n => Some (c, p, n)
+  | EvRemove _ _ _ | EvEOR _ => None
+  end.
+
+(* RFC 9234 section 5 ingress rule as a table: role of the neighbour x (OTC absent / = neighbour AS / other) *)
+Definition otc_table (remote : N) (otc_present : bool) (otc_is_peer_as : bool) : bool :=
+  match remote with
+  | 0 | 1 => false                                   (* from Provider / RS: never a leak at ingress *)
+  | 2 | 3 => otc_present                             (* from RS-Client / Customer: leak iff OTC present *)
+  | 4 => otc_present && negb otc_is_peer_as          (* from Peer: leak iff OTC present and not the peer's AS *)
+  | _ => false
+  end.
